@@ -91,6 +91,26 @@ CLAIMED = {
         "Trusted: TLC, H3Grid transcription, frozen tables, driver. The global count 2N-4 follows from the local triangle "
         "structure on complete resolutions; vertexToLatLng coincidence is a numeric observation (C08 machinery).",
         "DESIGN.md 3.8, 5/C11"),
+    "C09": (
+        "TLC trace validation of gridDistance / local IJ events against BFS distance on the TLA+ neighbour graph",
+        "The reference distance is breadth-first search on the graph generated by the TLA+ transcription of the "
+        "neighbour function (checked as a whole-resolution state space). TLC validates: every ordered pair of "
+        "resolution 0, every target of resolution 1 from 60 (thorough: all 842) origins and of resolution 2 from 96 "
+        "origins (thorough), pentagons first; at r=0..15 pentagon-disk / seam / random origins against their k<=4(6) "
+        "disks in both directions (successful distance = BFS distance, symmetric when both succeed, 0 for a=b, 1 for "
+        "neighbours, E_RES_MISMATCH); cellToLocalIj/localIjToCell mutual inverse where both succeed; localIjToCell "
+        "returns only valid cells of the origin's resolution (IJ boxes and coordinates up to +-2^31); unit-step clause "
+        "on pentagon-free disks.",
+        "Trusted: TLC, H3Grid transcription, frozen tables, driver. Any chart satisfying the axioms is accepted.",
+        "DESIGN.md 3.7, 5/C09"),
+    "C14": (
+        "TLC trace validation of gridPathCells events: adjacency of consecutive cells in the TLA+ neighbour graph, announced size, frame condition",
+        "For pairs within k<=3(4) of all/sampled cells of r<=2, strata at all resolutions, random and straight walks and "
+        "long paths at r>=5, TLC validates each recorded call: size = gridDistance+1, first = a, last = b, all cells "
+        "valid and of the same resolution, each a neighbour (set N of the reference graph) of its predecessor, nothing "
+        "written beyond the announced size (sentinels), success for a=b and for neighbours.",
+        "Trusted: TLC, H3Grid transcription, driver. Shortest-ness rests on size = gridDistance+1 together with C09.",
+        "DESIGN.md 5/C14"),
 }
 
 PENDING_REASON = "check not built yet in this round (work in progress; see DESIGN.md section 10 for the order of work)"
